@@ -15,7 +15,7 @@ from __future__ import annotations
 import ast
 
 from .report import Ctx
-from .srcmodel import call_leaf, call_name, calls_in, contains, dotted, get_kwarg, src, walk_local
+from .srcmodel import AnalysisError, call_leaf, call_name, calls_in, const_str, contains, dotted, get_kwarg, src, walk_local
 from .util import guard_chain, root_name, strip_not
 
 NX = {"e", "r"}
@@ -233,6 +233,34 @@ def run(ctx: Ctx) -> int:
         ctx.oblige("C16.a", ok, adds[0], "every processed target is added to seen_targets (shared-parent edges depend on it)" if ok else "a target can be processed without being remembered in seen_targets: shared-parent ordering edges are lost for later targets", fn=iof)
     else:
         ctx.oblige("C16.a", False, iof, "seen_targets bookkeeping vanished from instantiation_order", fn=iof, construct="seen_targets bookkeeping")
+
+    # ---------------- C16.e ---------------------------------------------------
+    # the group that owns a source key `a.b.c` is the class group whose dest is the key itself or its
+    # immediate parent `a.b` (an attribute of the object built for that group) - not the root `a`
+    from .shared_rules import key_expr_role, key_helper_roles
+
+    roles = key_helper_roles(ctx.repo)
+    fg = ctx.func("_link_arguments:find_subclass_action_or_class_group")
+    keyp = fg.args.args[1].arg if len(fg.args.args) > 1 else None
+    tests = [n_ for n_ in walk_local(fg) if isinstance(n_, ast.Compare) and len(n_.ops) == 1 and isinstance(n_.ops[0], ast.In) and any(call_leaf(c) == "getattr" and len(c.args) > 1 and const_str(c.args[1]) == "dest" for c in calls_in(n_.left))]
+    ctx.need(tests and keyp, "find_subclass_action_or_class_group: `getattr(group, 'dest', None) in <keys>`")
+    comp = tests[0].comparators[0]
+    if isinstance(comp, ast.Name):
+        ds = [s for s in walk_local(fg) if isinstance(s, ast.Assign) and any(isinstance(t, ast.Name) and t.id == comp.id for t in s.targets)]
+        ctx.need(len(ds) == 1, f"single definition of `{comp.id}`")
+        comp = ds[0].value
+    ctx.need(isinstance(comp, (ast.Set, ast.Tuple, ast.List)), "the candidate keys are a literal collection")
+    got = []
+    for e in comp.elts:
+        if isinstance(e, ast.Name) and e.id == keyp:
+            got.append("key")
+            continue
+        r = key_expr_role(roles, e)
+        if r is None or r[1] != keyp:
+            raise AnalysisError(f"find_subclass_action_or_class_group: cannot read the meaning of candidate key `{ast.unparse(e)}`")
+        got.append(r[0])
+    ok = sorted(got) == ["key", "parent"]
+    ctx.oblige("C16.e", ok, tests[0], "a source key is matched to the class group named by the key or by its immediate parent" if ok else f"a source key is matched against its {sorted(got)} instead of itself and its immediate parent: `outer.inner.attr` resolves to the group `outer` (the value of the wrong object is propagated) or to no group at all", fn=fg)
 
     ctx.notes.append("C16's exhaustive claim (correct topological order / cycle report for every digraph) is NOT decided by this check; only the wiring and the DFS typestate are.")
     return ctx.finish(
